@@ -52,6 +52,17 @@ def instances(tier, rng):
             elif cls == 2: K = 1
             elif cls == 3: N = 1
             elif cls == 4: M = 1
+            if cls == 5:
+                # dispatch classes of _matmul_base per vector width V: 3-column blocks (N%3V==0, M%3V==0, N>24, N>5V), 3-row blocks (M%12==0),
+                # masked / single-vector / scalar column remainders beyond the small-N kernels (N>5V)
+                V = rng.choice([2, 4, 8, 16])
+                sub = rng.randrange(4)
+                K = rng.choice([1, 2, 3, 5, 8])
+                if sub == 0: M, N = 3 * V * rng.choice([1, 2]), 3 * V * rng.choice([x for x in (2, 3, 4, 5, 6) if 3 * V * x > max(24, 5 * V) and 3 * V * x <= 99] or [2])
+                elif sub == 1: M, N = rng.choice([12, 24, 36]), 5 * V + rng.choice([1, 2, 3, V - 1, V + 1])
+                elif sub == 2: M, N = rng.choice([1, 2, 3, 5, 7, 9, 13]), 5 * V + rng.choice([2, 3, V - 1])
+                else: M, N = rng.choice([4, 8, 16, 20]), 6 * V + rng.choice([0, 1, 2, V - 1])
+                if N > 99: N = 99
             if t in ("cf", "cd", "l") and M * K * N > 20000: continue
             if M * K * N > 60000: continue
             if (t, M, K, N) in inst: continue
